@@ -33,7 +33,14 @@ var plans = map[string]*plan{
 		Stages: []stage{{"C18.nofault", 4000, 100000}, {"C18", 20000, 1000000}},
 		Rule:   "conformance monitor on the simulated server over every request of the queue workload (real basic adapters, uploads and downloads, ref names with special characters, retries, expiry, 429, per-object errors, omitted/repeated/unknown/foreign entries) plus single-field corruptions of valid batch responses (every JSON position x 13 mutations, drawn per response). Non-trivial = a fault fired or a decision had >=2 candidates; distinct = distinct full choice trace.",
 		Real:   realA, Stub: stubA,
-		Assume: []string{"schemas are read from /repo/docs/api/schemas at run time with the repo's own gojsonschema", "lock API requests are judged by the C16 checks, not here"},
+		Assume: []string{"schemas are read from /repo/docs/api/schemas at run time with the repo's own gojsonschema"},
+		Extra: &plan{
+			ID: "C18", Engine: "B", Level: "exploration",
+			Stages: []stage{{"C18.locks", 60, 2000}, {"C18.push", 60, 2000}},
+			Rule:   "the same monitor over engine-B histories: the two-user lock scenarios of C16 (create, unlock, paginated list, verify requests validated against the published lock schemas and header requirements, cursors must be ones the server handed out) and the push scenarios of C03 (batch bodies against the published schema, storage and verify requests against the actions offered), with request-keyed server faults.",
+			Real:   realB, Stub: stubB,
+			Assume: []string{"only what the client sends is judged in this part"},
+		},
 	},
 	"C08": {
 		ID: "C08", Engine: "A", Level: "exploration",
